@@ -35,6 +35,7 @@ def run(ctx):
     vlib.tlc_mc(ctx, 'MC_Registry', 'MC_Registry', workers=8)
     vlib.tlc_mc(ctx, 'MC_Registry', 'MC_Registry_chain', workers=8)
     vlib.tlc_mc(ctx, 'MC_Registry', 'MC_Registry_laws', workers=1)
+    vlib.tlapm(ctx, 'Proofs_Registry')  # unbounded: the laws of Filter as a function, for every universe and option record
     # (G) every option record of the bounded universe replayed on a real 5-lint registry
     rec, out = vlib.tlc_mc(ctx, 'MC_Registry_export', 'MC_Registry_export', workers=8)
     exp = ctx.path('export.out')
